@@ -18,15 +18,27 @@
 (*                                                                                             *)
 (* Zq.tla supplies the textbook algebra (Horner evaluation Eval, Lagrange interpolation        *)
 (* Interp); the invariants state that the code-shaped operators agree with it.                 *)
+(*                                                                                             *)
+(* SIGNED REPRESENTATIVES. The library takes ids, secrets and share values as *big.Int, i.e.   *)
+(* as arbitrary integers that stand for their residue modulo q: q+1 and 1-q are the id 1, q    *)
+(* and -q are the inadmissible id 0, s-q is the share value s. Every integer that the model    *)
+(* enumerates (Ids, Secrets, the altered ids / share values AltMin..AltMax) therefore ranges    *)
+(* over a window AROUND 0: canonical representatives, representatives >= q and NEGATIVE        *)
+(* representatives of the same classes. The code reduces with big.Int.Mod (Euclidean: result   *)
+(* in [0,q) for either sign); Rq below is that reduction (TLC's % is Euclidean too:            *)
+(* (-6) % 5 = 4). ReprBlind states that nothing depends on the representative chosen.          *)
 EXTENDS Zq, TLC
 
 CONSTANTS MaxT,      \* thresholds 0..MaxT are dealt (0 is refused by Create)
           MaxN,      \* id sets of size 1..MaxN
-          Ids,       \* the integers used as party ids; values >= Q alias their residue, multiples of Q are inadmissible
-          AltMax,    \* altered ids and share values range over 0..AltMax (>= Q: aliases, multiples of Q)
+          Ids,       \* the integers used as party ids (a window around 0): values >= Q and values < 0 alias their
+                     \* residue, all multiples of Q (0, Q, -Q, ..) are inadmissible
+          Secrets,   \* the integers used as secrets (a window around 0: negative, canonical and >= Q representatives)
+          AltMin,    \* altered ids and share values range over AltMin..AltMax (AltMin <= 0: negative representatives;
+          AltMax,    \*   >= Q: aliases; multiples of Q of either sign)
           AltN       \* alterations are applied in dealings to at most AltN ids (see Call)
 
-Rq(x) == x % Q                       \* every argument is a natural number here
+Rq(x) == x % Q                       \* big.Int.Mod: the representative in 0..Q-1, for an argument of either sign
 InvT  == [x \in ZqStar |-> Pow(x, Q - 2)]     \* table of inverses (Fermat), evaluated once
 Representable(p) == p \in ZqStar     \* dlog of a point that crypto.ECPoint can hold
 
@@ -50,8 +62,9 @@ EvalLoop(thr, a, id, i, X, result) ==
 EvaluatePolynomial(thr, a, id) == EvalLoop(thr, a, id, 1, 1, a[1])
 
 (***************************************************************************)
-(* Create(threshold, secret, indexes, rand): a[1] = secret, a[2..t+1] are   *)
-(* the values drawn from rand (each in 0..q-1: "positive" includes 0).      *)
+(* Create(threshold, secret, indexes, rand): a[1] = secret (any integer,     *)
+(* reduced modulo q before it is used), a[2..t+1] are the values drawn from *)
+(* rand (each in 0..q-1: "positive" includes 0).                            *)
 (***************************************************************************)
 Refuses(thr, ids) == thr < 1 \/ ~CheckIndexes(ids) \/ Len(ids) < thr
 
@@ -199,6 +212,18 @@ Reconstruction(d, c) == c.op = "R" =>
 CallOK(d, c) == Sound(c) /\ OwnVerifies(d, c) /\ OtherIdFails(d, c) /\ AlteredShareFails(d, c)
                 /\ AlteredCommitFails(d, c) /\ ShapeFails(d, c) /\ Reconstruction(d, c)
 
+\* --- signed representatives ----------------------------------------------------
+\* Nothing depends on which integer stands for a residue class: the dealing made for (secret, ids, coefficients) is the
+\* dealing made for their canonical representatives (in particular: refused for -Q and for {k, k-Q} exactly as for 0 and
+\* {k, k}), and every call returns what it returns on the canonical representatives of the id and the share value.
+Canon(seq) == [i \in 1..Len(seq) |-> Rq(seq[i])]
+ReprBlindDeal(d) ==
+  LET m == Create(d.t, Rq(d.secret), Canon(d.ids), Canon(d.a))
+  IN m.out = d.out /\ m.vs = d.vs /\ m.shares = d.shares
+ReprBlindCall(d, c) ==
+  /\ c.op = "V" => c.res = VerifyShare(c.sthr, Rq(c.id), Rq(c.share), c.thr, c.vs)
+  /\ c.op = "R" => c.res = ReConstruct(d.t, Canon(Pick(d.ids, c.idx)), Canon(Pick(d.shares, c.idx)))
+
 \* --- "fewer than t+1 never do", information-theoretic reading -----------------
 \* Reconstruction above says that the library's ReConstruct never yields the secret from at most t shares. Secrecy
 \* says that nobody can: for every set T of at most t admissible ids, the map  polynomial |-> (f(0), f restricted to T)
@@ -235,9 +260,11 @@ Choose ==
 
 Deal ==
   /\ p # None /\ d = None
-  /\ \E secret \in (IF Refuses(p.t, p.ids) THEN {1} ELSE Zq) :      \* a refusal looks at neither secret nor coefficients
-       \E a \in { b \in AllCoefs(IF p.t < 1 THEN 1 ELSE p.t) : b[1] = secret } :
-          d' = [op |-> "deal", t |-> p.t, secret |-> secret, ids |-> p.ids, a |-> a] @@ Create(p.t, secret, p.ids, a)
+  /\ LET ref == Refuses(p.t, p.ids)                 \* a refusal looks at neither secret nor coefficients: dealt once
+     IN \E secret \in (IF ref THEN {1} ELSE Secrets) :
+          \E cs \in (IF ref THEN {[k \in 1..p.t |-> 1]} ELSE [1..p.t -> Zq]) :     \* the drawn coefficients
+             LET a == <<secret>> \o cs
+             IN d' = [op |-> "deal", t |-> p.t, secret |-> secret, ids |-> p.ids, a |-> a] @@ Create(p.t, secret, p.ids, a)
   /\ UNCHANGED <<p, c>>
 
 VCall(kind, i, sthr, id, share, thr, vs) ==
@@ -252,8 +279,8 @@ Call ==
   /\ \E i \in 1..Len(d.ids) :
        \/ VCall("own", i, d.t, d.ids[i], d.shares[i], d.t, d.vs)
        \/ /\ Len(d.ids) <= AltN
-          /\ \/ \E id \in (0..AltMax) \ {d.ids[i]} : VCall("id", i, d.t, id, d.shares[i], d.t, d.vs)
-             \/ \E s \in (0..AltMax) \ {d.shares[i]} : VCall("share", i, d.t, d.ids[i], s, d.t, d.vs)
+          /\ \/ \E id \in (AltMin..AltMax) \ {d.ids[i]} : VCall("id", i, d.t, id, d.shares[i], d.t, d.vs)
+             \/ \E s \in (AltMin..AltMax) \ {d.shares[i]} : VCall("share", i, d.t, d.ids[i], s, d.t, d.vs)
              \/ \E k \in 1..(d.t + 1) : \E v \in ZqStar \ {d.vs[k]} :
                   VCall("commit", i, d.t, d.ids[i], d.shares[i], d.t, [d.vs EXCEPT ![k] = v])
              \/ VCall("shape", i, d.t, d.ids[i], d.shares[i], d.t, SubSeq(d.vs, 1, d.t))
@@ -270,6 +297,8 @@ Spec == Init /\ [][Next]_vars
 InvSecrecy == (p # None /\ d = None /\ p.t >= 1 /\ CheckIndexes(p.ids)) => Secrecy(p.t, p.ids)
 InvDeal    == (d # None /\ c = None) => DealOK(d)
 InvCall    == c # None => CallOK(d, c)
+InvRepr    == /\ (d # None /\ c = None) => ReprBlindDeal(d)
+              /\ c # None => ReprBlindCall(d, c)
 \* InterpAtZero is Zq!Interp at 0 (checked in the model-checking runs only: Zq!Inv is a Fermat recursion, slow for large Q)
 InvInterp  == (c # None /\ c.op = "R" /\ Len(c.idx) >= d.t) =>
                  InterpAtZero(Pick(d.ids, c.idx), Pick(d.shares, c.idx)) = Interp(Pick(d.ids, c.idx), Pick(d.shares, c.idx), 0)
